@@ -225,7 +225,7 @@ def art1_target_oracle(rng):
 def prepare_restore(rng):
     """prepare_data / restore_data on raw multi-channel data (non-constant columns)"""
     import artlib
-    n = rng.choice([2, 3])
+    n = rng.choice([2, 3, 3, 4])
     mods, raws = [], []
     rows = rng.randrange(3, 9)
     for _ in range(n):
@@ -235,9 +235,20 @@ def prepare_restore(rng):
             mods.append(artlib.FuzzyART(0.5, 1e-3, 1.0)); width = 2 * d
         else:
             mods.append(artlib.HypersphereART(0.5, 1e-3, 1.0, 1.0)); width = d
-        raw = np.array([[rng.uniform(-5, 20) for _ in range(d)] for _ in range(rows)])
+        how = rng.choice(["float", "float", "int", "bool"])
+        if how == "int":
+            # whole-number data in a narrow integer dtype whose column range need not fit the dtype's positive half
+            dt = rng.choice([np.int8, np.int16, np.uint8, np.int64])
+            lo, hi = {np.int8: (-120, 120), np.int16: (-30000, 30000), np.uint8: (0, 250), np.int64: (-1000, 1000)}[dt]
+            raw = np.array([[rng.randrange(lo, hi) for _ in range(d)] for _ in range(rows)], dtype=dt)
+            raw[0, :], raw[1, :] = lo, hi
+        elif how == "bool":
+            raw = np.array([[rng.random() < 0.5 for _ in range(d)] for _ in range(rows)], dtype=bool)
+            raw[0, :], raw[1, :] = False, True
+        else:
+            raw = np.array([[rng.uniform(-5, 20) for _ in range(d)] for _ in range(rows)])
         raws.append((raw, width))
-    est = artlib.FusionART(mods, [1.0 / n] * n if n == 2 else [0.5, 0.25, 0.25], [w for _, w in raws])
+    est = artlib.FusionART(mods, {2: [0.5, 0.5], 3: [0.5, 0.25, 0.25], 4: [0.25, 0.25, 0.25, 0.25]}[n], [w for _, w in raws])
     try:
         P = est.prepare_data([r for r, _ in raws])
         if P.min() < -1e-12 or P.max() > 1 + 1e-12:
@@ -255,8 +266,16 @@ def prepare_restore(rng):
         if len(Rs) != len(sup) or not all(a.shape == b.shape and np.allclose(a, b, atol=1e-9) for a, b in zip(Rs, sup)):
             return {"signature": "FusionART/prepare-restore", "text": f"restore_data(prepare_data(., skip={given}), skip={given}) is not the identity on the supplied channels",
                     "replay": {"raw": [r.tolist() for r, _ in raws], "skip_channels": given}}
+        # the other direction: what restore_data returns (one array per supplied channel) prepares back to the same row
+        P2 = est.prepare_data(Rs, skip_channels=list(given))
+        if P2.shape != Ps.shape or not np.allclose(P2, Ps, atol=1e-9):
+            return {"signature": "FusionART/prepare-restore", "text": f"prepare_data(restore_data(P, skip={given}), skip={given}) is not P on the supplied channels",
+                    "replay": {"raw": [r.tolist() for r, _ in raws], "skip_channels": given}}
+        if [len(b) for b in est.split_channel_data(P2, skip_channels=list(given))] != [len(b) for b in est.split_channel_data(Ps, skip_channels=list(given))]:
+            return {"signature": "FusionART/prepare-restore", "text": "split_channel_data disagrees on the two preparations", "replay": {"raw": [r.tolist() for r, _ in raws], "skip_channels": given}}
     except Exception as e:
-        return {"signature": "FusionART/prepare-raises", "text": f"{type(e).__name__}: {str(e)[:80]}", "replay": {"raw": [r.tolist() for r, _ in raws]}}
+        return {"signature": "FusionART/prepare-raises", "text": f"{type(e).__name__}: {str(e)[:80]}",
+                "replay": {"raw": [r.tolist() for r, _ in raws], "dtypes": [str(r.dtype) for r, _ in raws], "skip_channels": locals().get("given")}}
     return None
 
 
